@@ -1274,6 +1274,9 @@ class Gen(object):
         want_raise = 'F3' in self.p.faults and (r.random() < 0.5 or 'F4' not in self.p.faults)
         site = r.choice(SITES)
         op = {'op': 'cb_arm', 'slot': k, 'k': r.randrange(3), 'site': site}
+        if 'F2' in self.p.faults and r.random() < 0.12:
+            op['nocopy'] = True           # F2: a handler that cannot be deep-copied (it holds a lock, a file ...)
+            return op
         if r.random() < 0.2:
             op['unregister'] = True       # F7: one-shot callback that removes itself when notified
             return op
